@@ -367,6 +367,29 @@ detach(struct bitstream bs)
 }
 
 
+/* A retrieve job is being abandoned before it could complete.  Make sure its
+   unord block (if any) doesn't leak: if parser has already disowned the block
+   then nobody else refers to it, so free it right away.  Otherwise the block
+   is still in unord_q -- mark it complete so that parser frees it as soon as
+   it dequeues it. */
+static void
+disown_unord(struct retr_blk *rb)
+{
+  struct unord_blk *ublk = rb->unord_link;
+
+  if (ublk == NULL)
+    return;
+
+  if (ublk->complete) {
+    free(ublk);
+  }
+  else {
+    ublk->complete = true;
+    ublk->legitimate = false;
+  }
+}
+
+
 /* Release any input blocks that are behind current base position. */
 static void
 advance(struct detached_bitstream bs)
@@ -395,6 +418,7 @@ advance(struct detached_bitstream bs)
     Trace(("Advanced over miss-recognized bit pattern at {%u}",
            nbsx2(rb->base)));
 
+    disown_unord(rb);
     decoder_free(&rb->ds);
     VERIF_FREE(VERIF_C_DEC);
     free(rb);
@@ -487,6 +511,7 @@ do_parse(void)
       Trace(("Parser discovered a bit pattern beyond EOF at {%u}",
              nbsx2(rb->base)));
 
+      disown_unord(rb);
       decoder_free(&rb->ds);
       VERIF_FREE(VERIF_C_DEC);
       free(rb);
@@ -636,6 +661,7 @@ do_retrieve(void)
 #endif
 
   if (parsing_done) {
+    disown_unord(rb);
     decoder_free(&rb->ds);
     VERIF_FREE(VERIF_C_DEC);
     free(rb);
@@ -653,6 +679,7 @@ do_retrieve(void)
        abort this retrieve job. */
     Trace(("Retriever found himself redundand"));
     work_units++;
+    disown_unord(rb);
     decoder_free(&rb->ds);
     VERIF_FREE(VERIF_C_DEC);
     free(rb);
@@ -676,6 +703,7 @@ do_retrieve(void)
        input we would need next, so we can't be legitimate.  Release this job
        the same way advance() releases overtaken jobs waiting in retr_q. */
     Trace(("Retriever was overtaken by master"));
+    disown_unord(rb);
     decoder_free(&rb->ds);
     VERIF_FREE(VERIF_C_DEC);
     free(rb);
